@@ -111,7 +111,7 @@ _L0 = {
     ("ImportFrom", "names"): 1, ("Global", "names"): 1, ("Nonlocal", "names"): 1, ("With", "items"): 1,
     ("AsyncWith", "items"): 1, ("Match", "cases"): 1, ("BoolOp", "values"): 2, ("Compare", "pairs"): 1,
     ("*", "generators"): 1, ("Try", "handlers"): 1, ("TryStar", "handlers"): 1, ("MatchOr", "patterns"): 2,
-    ("JoinedStr", "values"): 1,
+    ("JoinedStr", "values"): 1, ("MatchSequence", "patterns"): 1,
 }  # fmt: skip
 
 # fields never enumerated (fixed value)
